@@ -70,6 +70,11 @@ CHECKS["C17"] = ("exploration",
   "All base programs (families S, D, P and an enum/struct match program; fully annotated) are first shown to be accepted; then for each of 30 edit kinds covering the listed static rules every applicable site is mutated at AST level (so the mutant still parses) and the real checker must return a non-empty list of type errors. Each mutator is built so that the edit provably violates its rule (fresh nominal type for type clashes, globally fresh names, syntactic evidence of a later assignment for dropped mut).",
   "Mutants that are rejected for a different reason than intended still count as rejected; the per-rule table in the evidence shows mutants/rejected per rule.", "DESIGN.md §4 C17")
 
+CHECKS["C05"] = ("exploration",
+  "exhaustive enumeration of literal-inference programs (50 templates x every subset of unsuffixed literal positions x 9 integer types) plus zero-sized / multi-function programs, and every program of the other bounded families, through the real checker and compiler with shape/validation oracles",
+  "For every enumerated program the real type checker decides acceptance; every accepted program must compile each of its pub fns without an internal panic into a circuit that passes validate(), has one input party per parameter (per element for a single array parameter) of exactly size(type) bits and 161 + size(return type) outputs that decode to the declared type; fully suffixed in-range instances and all programs of families E, S, P, D must be accepted.",
+  "Sizes come from the harness's own size_of. Rejecting a not fully suffixed program is never a violation.", "DESIGN.md §4 C05")
+
 NOT_YET = {
 }
 
